@@ -99,10 +99,13 @@ func (c16) Gen(r *rand.Rand, tier string, run int) *core.Case {
 			case x < 8:
 				op = core.Op{Kind: "terminate", X: int64(1 + r.IntN(objs+4*r.IntN(2)))}
 			default:
-				op = core.Op{Kind: []string{"add", "add-family", "readd"}[r.IntN(3)], X: int64(1 + r.IntN(objs))}
+				op = core.Op{Kind: []string{"add", "add-family", "readd", "add-early"}[r.IntN(4)], X: int64(1 + r.IntN(objs))}
 			}
 			op.Actor = a
 			op.Y = int64(r.IntN(2))
+			if op.Kind == "add-early" {
+				op.Y = int64([]int{0, 1, 3, 10, 40}[r.IntN(5)])
+			}
 			c.Ops = append(c.Ops, op)
 		}
 	}
@@ -140,6 +143,16 @@ type c16state struct {
 	objs []*c16obj
 	w    *World
 	cs   *c16cs // the client-side sub-batch
+	// requests for an object that is called while it is being activated, by
+	// the actor that adds it
+	early map[int]*c16early
+}
+
+type c16early struct {
+	yields  int
+	seq     int
+	called  chan struct{}
+	started bool
 }
 
 func (c16) Run(c *core.Case, env *core.Env) {
@@ -165,13 +178,67 @@ func (c16) Run(c *core.Case, env *core.Env) {
 		}
 		clients = append(clients, cl)
 	}
-	add := func(a int, prev *c16obj) *c16obj {
+	meta, err := bus.GetMetaObject(clients[0], w.ServiceID, w.ObjIDs[0])
+	if err != nil {
+		env.Violate("setup/meta", "%v", err)
+		return
+	}
+	var earlyN int
+	var add func(a int, prev *c16obj) *c16obj
+	// addEarly adds an object whose activation gives its identifier away and
+	// takes its time: a client calls the object while it is being activated.
+	// The call may succeed or fail; it has one outcome.
+	addEarly := func(a int, yields int) {
+		st.mu.Lock()
+		earlyN++
+		req := &c16early{yields: yields, called: make(chan struct{}), seq: earlyN}
+		if st.early == nil {
+			st.early = map[int]*c16early{}
+		}
+		st.early[a] = req
+		st.mu.Unlock()
+		if add(a, nil) == nil {
+			// Add failed: the activation may not have run
+			st.mu.Lock()
+			started := req.started
+			st.mu.Unlock()
+			if !started {
+				return
+			}
+		}
+		<-req.called
+	}
+	add = func(a int, prev *c16obj) *c16obj {
 		h := env.Invoke(a, "add", "")
 		zzsim.SetNode("server")
 		var impl *ProbeImpl
 		var actor bus.Actor
 		st.mu.Lock()
 		o := &c16obj{slot: len(st.objs)}
+		var early func(bus.Activation)
+		if req := st.early[a]; req != nil && prev == nil {
+			delete(st.early, a)
+			called, yields, seq := req.called, req.yields, req.seq
+			slot := o.slot
+			early = func(act bus.Activation) {
+				st.mu.Lock()
+				req.started = true
+				st.mu.Unlock()
+				go func() {
+					defer close(called)
+					zzsim.SetNode("harness")
+					cl := clients[(a+seq)%len(clients)]
+					p := probe.MakeProbe(nil, bus.NewProxy(cl, meta, w.ServiceID, act.ObjectID))
+					tok := probe.Token{Client: int32(a), Seq: int32(1000 + seq), Nonce: int64(slot), Text: "t"}
+					eh := env.Invoke(a+300, "early-call", fmt.Sprintf("%s@slot%d", tokOf(tok).Key(), slot))
+					ret, err := p.Echo(tok)
+					env.Return(eh, tokOf(ret).String(), err)
+				}()
+				for k := 0; k < yields; k++ {
+					zzsim.Yield("h.activate")
+				}
+			}
+		}
 		if prev != nil {
 			// the same implementation value, added again after its removal
 			impl, actor = prev.impl, prev.actor
@@ -179,7 +246,7 @@ func (c16) Run(c *core.Case, env *core.Env) {
 			o.termBase = prev.termAt
 			o.execSlot = prev.execSlot
 		} else {
-			impl = &ProbeImpl{Env: env, SlowMs: c.P("slow_ms", 0)}
+			impl = &ProbeImpl{Env: env, SlowMs: c.P("slow_ms", 0), OnActivate: early}
 			impl.Obj = o.slot
 			actor = probe.ProbeObject(impl)
 			o.execSlot = o.slot
@@ -411,6 +478,9 @@ func (c16) Run(c *core.Case, env *core.Env) {
 				switch op.Kind {
 				case "add":
 					add(a, nil)
+				case "add-early":
+					addEarly(a, int(op.Y))
+					env.Probe("objects-called-while-being-activated")
 				case "add-family":
 					// a parent whose termination hook removes its child from
 					// the same service
@@ -627,6 +697,33 @@ func (c16) Check(c *core.Case, env *core.Env, res zzsim.Result, v *core.Verdict)
 			}
 			if h.OK && !strings.HasPrefix(h.Out, key+":") {
 				bad("wrong-reply", "%s: %s returned %q", name, h, h.Out)
+			}
+		}
+		// the call made while the object was being activated: one outcome (the
+		// hang rule above), its own, from at most one execution on this object
+		for _, h := range hs {
+			if h.Kind != "early-call" || !strings.HasSuffix(h.Arg, fmt.Sprintf("@slot%d", o.slot)) || h.Ret == 0 {
+				continue
+			}
+			key, _, _ := strings.Cut(h.Arg, "@")
+			ran := 0
+			for _, e := range execs {
+				if e.Key == key {
+					ran++
+					if e.Obj != o.execSlot {
+						bad("wrong-object", "%s: call %s ran on object slot %d", name, h, e.Obj)
+					}
+				}
+			}
+			if h.OK && (ran != 1 || !strings.HasPrefix(h.Out, key+":")) {
+				bad("early-call/wrong-outcome", "%s: %s succeeded with %q after %d executions", name, h, h.Out, ran)
+			} else if ran > 1 {
+				bad("early-call/ran-twice", "%s: %s ran %d times", name, h, ran)
+			}
+			if h.OK {
+				env.Probe("early-call-answered-by-the-object")
+			} else {
+				env.Probe("early-call-refused")
 			}
 		}
 		for _, h := range hs {
